@@ -85,7 +85,7 @@ fn basic_char(tok: &str, cs: u64) -> char {
     match tok {
         "a" => ['a', 'k', 'z'][v], "A" => ['A', 'K', 'Z'][v], "b" => ['b', 'm', '7'][v], "d" => ['d', 'p', '~'][v],
         ":" => ':', "sp" => ' ',
-        "c2" => ['é', 'ß', 'ж'][v], "c3" => ['日', '€', '한'][v], "c4" => ['😀', '𝄞', '🦀'][v],
+        "c2" => ['é', 'ß', 'ж'][v], "c3" => ['日', '€', '\u{FFFD}'][v], "c4" => ['😀', '𝄞', '🦀'][v],
         _ => '?',
     }
 }
@@ -162,6 +162,14 @@ fn basic_header(h: &Value, cs: u64) -> Option<Vec<u8>> {
             let bounds: Vec<usize> = t.char_indices().map(|(i, _)| i).collect();
             let mut c = cred.clone();
             if bounds.is_empty() { c.extend_from_slice(&[0xFF, b'a']) } else { c.insert(bounds[((cs / 53) as usize) % bounds.len()], 0xFF) }
+            with("Basic ", &STANDARD.encode(&c))
+        }
+        "nonutf8_repl" => {
+            // every three-byte character replaced by one invalid byte (a lossy decoder turns each into U+FFFD, which is one of the
+            // representatives of that character class); an invalid byte is appended when there is none to replace
+            let mut c: Vec<u8> = vec![]; let mut any = false;
+            for t in arr(&h["cred"]) { if s(t) == "c3" { c.push(0xFF); any = true } else { let mut b = [0u8; 4]; c.extend_from_slice(basic_char(s(t), cs).encode_utf8(&mut b).as_bytes()) } }
+            if !any { c.push(0xFF) }
             with("Basic ", &STANDARD.encode(&c))
         }
         "rawff" => { let mut v = format!("Basic {b64}").into_bytes(); v.push(0xFF); Some(v) }
@@ -534,7 +542,7 @@ fn gen_basic(rng: &mut Rng) -> Value {
         _ => {}
     }
     let kind = if rng.chance(1, 2) { "basic" } else { *rng.pick(&["basic", "nopad", "noncanon", "lower", "upper", "twospace", "nospace", "tab", "bearer", "digest", "schemeonly", "missing",
-        "badchar", "trailing", "lead", "midpad", "nonutf8_last", "nonutf8_trunc", "nonutf8_mid", "rawff"]) };
+        "badchar", "trailing", "lead", "midpad", "nonutf8_last", "nonutf8_trunc", "nonutf8_mid", "nonutf8_repl", "rawff"]) };
     json!({"mod": "basic", "form": if n == 1 && rng.chance(1, 2) { "single" } else { "array" }, "mount": *rng.pick(&["top", "nested"]),
            "method": *rng.pick(&["GET", "POST", "GET", "HEAD"]),
            "pairs": pairs.iter().map(|(u, p)| json!({"u": u, "p": p})).collect::<Vec<_>>(),
